@@ -1714,8 +1714,11 @@ func (g *Gen) rangeMutate() *Stmt {
 		i, x := g.name("i"), g.name("x")
 		loop := &Stmt{K: "for", S: "range", Decl: []string{i, x}, Es: []E{a}, A: []*Stmt{
 			{K: "simple", Cut: true, Es: []E{{T: fmt.Sprintf("%s[(%s+1)%%3] = %s + %d", a.T, i, x, k), P: fmt.Sprintf("%s[(%s+1)%%3] = %s + %d", a.P, i, x, k)}}},
-			{K: "show", Es: []E{same(x, "int")}}, g.text(),
+			{K: "show", Es: []E{same(x, "int")}},
 		}}
+		if !g.code {
+			loop.A = append(loop.A, g.text())
+		}
 		return &Stmt{K: "group", A: []*Stmt{loop, {K: "show", Es: []E{{T: a.T + "[2]", P: a.P + "[2]", Ty: "int"}}}}}
 	}
 	if ps, ok := g.v("[]HostPt"); ok {
@@ -1723,8 +1726,11 @@ func (g *Gen) rangeMutate() *Stmt {
 		p := g.name("x")
 		loop := &Stmt{K: "for", S: "in", Decl: []string{p}, Es: []E{ps}, A: []*Stmt{
 			{K: "simple", Cut: true, Es: []E{same(fmt.Sprintf("%s.X = %d", p, k), "")}},
-			{K: "show", Es: []E{same(p+".X", "int")}}, g.text(),
+			{K: "show", Es: []E{same(p+".X", "int")}},
 		}}
+		if !g.code {
+			loop.A = append(loop.A, g.text())
+		}
 		if r.Intn(2) == 0 {
 			loop.S, loop.Decl = "range", []string{"_", p}
 		}
